@@ -104,3 +104,29 @@ prop("C07", level="proof", bounded=True,
      note="Trusted: pyvc, z3/cvc5, tier-B contracts of getDefault/isEmpty (ghost default / emptiness).",
      also=["iterRange", "Fiber._coord2pos", "Fiber.getPayload", "Fiber.getPayloadRef", "Fiber.setSavedPos", "Payload.isEmpty"],
      trusted_base=["Fiber.getDefault / Fiber.isEmpty ghost abstractions (tier B)"])
+
+prop("C05", level="exploration", bounded=True,
+     technique="bounded: executable contract of populate on the real generator over an exhaustively enumerated small scope; deductive core for callees only",
+     text="Bounded (not proved): populate is run on the real library for destination x source pairs over 3 coordinates with payloads {absent,0,1,2} and "
+          "every loop body (each offered reference assigned / accumulated / left / reset / set, all sequences up to the number of offered references), "
+          "destination default 0 and 1, uncompressed sources, nested populate at depth 2 (all pairs over 2 coordinates incl. empty sub-fibers, 9 body "
+          "patterns) and seeded random depth-2/3 pairs; at every yield the offered coordinate/payload/reference value, WF and the rank lists are "
+          "checked, and after the loop the content, the absence of left-behind elements/sub-fibers and the source's snapshot. "
+          "Proved core: the callees populate relies on (getPayload(allocate=False,start_pos), _create_payload(pos=), _coord2pos, setSavedPos, Rank.pop, "
+          "Payload in-place operators). A contract for lshift_iterator itself (WF at every yield, offered sequence == source sequence, callee "
+          "preconditions = position arithmetic) generates 950 obligations of which 20 are solver-unstable, so it is not claimed.",
+     note="Exploration level: the statement itself is decided only within the stated bounds. Trusted for the proved core: pyvc, z3/cvc5, bisect.",
+     also=["Fiber.getPayload", "Fiber._create_payload", "Fiber._coord2pos", "Fiber.setSavedPos", "Rank.pop", "Payload.__ilshift__", "Payload.__iadd__"],
+     trusted_base=["bisect.bisect_left"])
+
+prop("C02", level="exploration", bounded=True,
+     technique="bounded: rank-bookkeeping invariant RB recomputed by an independent DFS after every step of enumerated histories; deductive core for Rank primitives",
+     text="Bounded (not proved): RB (rank i lists exactly the fibers at depth i, once each, owners, chaining, single root) is checked after construction by "
+          "every constructor/transform family (fromFiber, deepcopy, fromUncompressed, empty, YAML, splits, swizzle, flatten/unflatten, swap, makePopulated, "
+          "a live sub-fiber handed to fromFiber) on every depth-2 tree over 2 coordinates, after every op of the op universe on each, after seeded "
+          "random histories at depth 2-3, and at every yield of nested populate loops (all depth-2 pairs, sampled depth-3 pairs, 7 body patterns). "
+          "Proved core: Rank.pop / Rank.clearFibers list+owner effects, the leaf insertion path (no rank effect: frame), read frames (C03/C10). "
+          "The tree-walking parts (setRoot/_addFiber recursion, _instantiateDefault through callable defaults, pickle) are outside pyvc's subset.",
+     note="Known findings (known_findings.json): clear / append(fiber) / position-assignment of a fiber on an owned interior fiber do not update the next rank's list.",
+     also=["Rank.pop", "Rank.clearFibers", "Fiber._create_payload", "Fiber.getPayloadRef"],
+     trusted_base=["pickle-based deepcopy (bounded only)"])
